@@ -43,7 +43,7 @@ ASSUMPTIONS = ["the sender's numbers increase in creation order and a request ca
                "window', 'always above everything accepted' and the forgery-independence of every verdict are checked",
                "a forgery that makes unprotect raise something other than a protection error is C11's business and "
                "counted as an anomaly here"]
-EXPECTED_PROBES = ["accepted", "duplicate_rejected", "below_window_rejected", "jump_beyond_window", "forgery_ct",
+EXPECTED_PROBES = ["own_exchange_while_uninitialized", "accepted", "duplicate_rejected", "below_window_rejected", "jump_beyond_window", "forgery_ct",
                    "forgery_piv", "forgery_rekey", "forgery_pivct", "forgery_before_genuine", "restart",
                    "echo_challenge", "echo_recovered", "stale_echo_rejected", "bogus_echo_rejected", "near_max_seqno",
                    "in_window_unseen_accepted", "uninitialized_start", "window_size_1"]
@@ -117,6 +117,8 @@ def gen(r, tier):
                                   r.choice(msgs)["seq"]])
                     v = max(0, min(MAX_SEQNO - 1, v))
                     ops.append(["f", k, kind, v])
+            elif r.chance(0.12):
+                ops.append(["own"])
             else:
                 # recent messages are more likely, repeats are frequent
                 k = avail[-1 - min(len(avail) - 1, int(r.random() ** 2 * len(avail)))] if r.chance(0.6) else r.choice(avail)
@@ -359,6 +361,8 @@ def execute(sim, scn):
     nontrivial = [False]
     dups = [0]
 
+    own_seq = [0]
+
     def run_pass(with_forgeries):
         R = Receiver(osc, env, scn, make_receiver)
         challenge_checked = False
@@ -377,6 +381,28 @@ def execute(sim, scn):
                 if with_forgeries:
                     sim.probe("restart")
                     nontrivial[0] = True
+                continue
+            if kind == "own":
+                # The receiver also acts as a client: it protects a request of its own and unprotects the peer's
+                # ordinary response (which reuses the request's nonce, i.e. carries no Partial IV).  That says nothing
+                # about the freshness of the PEER's requests: the replay window must be left as it is.
+                try:
+                    req = env.build_message(rc.GET, [(rc.URI_PATH, b"own")], b"")
+                    R.ctx.sender_sequence_number = own_seq[0]  # never repeat a number towards the peer, whichever
+                    own_seq[0] += 1                            # incarnation / pass this is
+                    outer, reqid = R.ctx.protect(req)
+                    _inner, rid_s = S.unprotect(env.from_wire(env.to_wire(outer, 0x5000 + (idx & 0x7FF), b"O")))
+                    resp = env.build_message(rc.CONTENT, [], b"own-response")
+                    outer2, _ = S.protect(resp, rid_s)
+                    got, _ = R.ctx.unprotect(env.from_wire(env.to_wire(outer2, 0x5800 + (idx & 0x7FF), b"O")), reqid)
+                    if with_forgeries:
+                        sim.probe("own_exchange_while_uninitialized" if not R.model_init else "own_exchange")
+                        sim.log("arrival", idx, "own-exchange", R.model_init)
+                        if got.payload != b"own-response":
+                            sim.anomaly("own-exchange-payload-mismatch", "")
+                except Exception as e:
+                    if with_forgeries:
+                        sim.anomaly("own-exchange-failed-" + type(e).__name__, str(e)[:100])
                 continue
             if kind == "f":
                 if not with_forgeries:
